@@ -1,7 +1,9 @@
 //! brushverif: correspondence harness driving /repo's brush crates.
-mod hist;
-mod sh;
-mod util;
+//! Subcommands live in src/p_*.rs (registered automatically through registry.rs).
+#![allow(dead_code)]
+mod registry;
+pub mod util;
+pub use registry::p_sh as sh;
 
 fn main() {
     let args: Vec<String> = std::env::args().collect();
@@ -9,12 +11,8 @@ fn main() {
     // Silence the default panic message; panics are result values.
     std::panic::set_hook(Box::new(|_| {}));
     let cases = util::read_cases();
-    match sub {
-        "sh" => sh::main_sh(cases),
-        "hist" => hist::main_hist(cases),
-        _ => {
-            eprintln!("unknown subcommand {sub}");
-            std::process::exit(2);
-        }
+    if !registry::dispatch(sub, &cases) {
+        eprintln!("unknown subcommand {sub}");
+        std::process::exit(2);
     }
 }
